@@ -671,6 +671,97 @@ pub fn check_pair_equivalence(a: &Pma<u32>, b: &Pma<u32>, transition_cap: u64) -
     r
 }
 
+/// C08, for all haystacks of one pair of automata: product walk of a char-wise and a byte-wise
+/// automaton built from the same UTF-8 patterns. One step = one character: the char-wise automaton
+/// takes its own transition on the code point, the byte-wise one on each UTF-8 byte in turn. At
+/// every character boundary reached, both must expose the same observation (Standard: the whole
+/// output list; leftmost kinds: being in the root or not, and the head of the output list).
+/// Both automata must have passed the closure and ranking monitors.
+pub fn check_cross_variant_equivalence(cw: &Pma<u32>, bw: &Pma<u32>, transition_cap: u64) -> PairReport {
+    let mut r = PairReport::default();
+    let kind = cw.kind();
+    if bw.kind() != kind {
+        r.differences.push("the two automata have different match kinds".into());
+        return r;
+    }
+    let symbols: Vec<u32> = cw.symbols().iter().map(|x| x.0).collect();
+    let (oc, ob) = (cw.outputs(), bw.outputs());
+    let list = |p: &Pma<u32>, outs: &Vec<daachorse::verif::RawOutput<u32>>, slot: u32| -> Vec<(u32, u32)> {
+        let mut v = Vec::new();
+        let mut pos = p.state(slot).map_or(0, |s| s.output_pos);
+        while pos != 0 && v.len() <= outs.len() {
+            let o = outs[(pos - 1) as usize];
+            v.push((o.value, o.length));
+            if kind != MatchKind::Standard {
+                break;
+            }
+            pos = o.parent;
+        }
+        v
+    };
+    let enc = |sy: u32| -> Vec<u8> {
+        let mut buf = [0u8; 4];
+        char::from_u32(sy).map_or(vec![b'?'], |c| c.encode_utf8(&mut buf).as_bytes().to_vec())
+    };
+    let est_states = cw.num_states() as u64 + 2;
+    let full = est_states * symbols.len() as u64 <= transition_cap;
+    r.sampled = !full;
+    let pair_cap = 4 * est_states as usize + 1024;
+    let mut pairs: Vec<(u32, u32, u32, u32)> = vec![(0, 0, u32::MAX, 0)];
+    let mut seen: HashSet<(u32, u32)> = HashSet::new();
+    seen.insert((0, 0));
+    let mut k = 0usize;
+    while k < pairs.len() {
+        let (sc, sb, _, _) = pairs[k];
+        let (lc, lb) = (list(cw, &oc, sc), list(bw, &ob, sb));
+        let root_differs = kind != MatchKind::Standard && ((sc == 0) != (sb == 0));
+        if lc != lb || root_differs {
+            let mut syms: Vec<u32> = Vec::new();
+            let mut j = k;
+            while pairs[j].2 != u32::MAX {
+                syms.push(pairs[j].3);
+                j = pairs[j].2 as usize;
+            }
+            syms.reverse();
+            let w: String = syms.iter().filter_map(|&c| char::from_u32(c)).collect();
+            if r.differences.len() < MAXV {
+                r.differences.push(format!(
+                    "after reading the haystack {:?} the char-wise automaton is in slot {sc} (root: {}) with outputs (value,len) {:?}, the byte-wise one in slot {sb} (root: {}) with outputs {:?}",
+                    w,
+                    sc == 0,
+                    &lc[..lc.len().min(6)],
+                    sb == 0,
+                    &lb[..lb.len().min(6)]
+                ));
+            }
+            if r.differences.len() >= MAXV {
+                break;
+            }
+            k += 1;
+            continue;
+        }
+        let step = if full { 1 } else { (symbols.len() / 24).max(1) };
+        for (i, &sym) in symbols.iter().enumerate() {
+            if !full && (i + sc as usize) % step != 0 {
+                continue;
+            }
+            let nc = unsafe { cw.next_state(sc, sym) };
+            let mut nb = sb;
+            for byte in enc(sym) {
+                nb = unsafe { bw.next_state(nb, u32::from(byte)) };
+            }
+            r.transitions += 1;
+            if seen.len() < pair_cap && seen.insert((nc, nb)) {
+                pairs.push((nc, nb, k as u32, sym));
+            }
+        }
+        k += 1;
+    }
+    r.truncated = seen.len() >= pair_cap;
+    r.pairs = pairs.len();
+    r
+}
+
 /// Symbol sequences of the patterns of a case.
 pub fn pattern_symbols(patterns: &[Vec<u8>], charwise: bool) -> Vec<Vec<u32>> {
     patterns
